@@ -9236,6 +9236,14 @@ class SVG(Group):
                             values[SVG_ATTR_TRANSFORM] = viewport_transform
                         values["viewport_transform"] = values[SVG_ATTR_TRANSFORM]
                         width, height = s.viewbox.width, s.viewbox.height
+                    for geometric in (
+                        SVG_ATTR_X,
+                        SVG_ATTR_Y,
+                        SVG_ATTR_WIDTH,
+                        SVG_ATTR_HEIGHT,
+                    ):
+                        if geometric in values:
+                            del values[geometric]
                     if context is None:
                         stack[-1] = (context, values)
                     if context is not None:
